@@ -85,9 +85,12 @@ def classify_code(ctx: Ctx, dialect: str) -> dict[int, str]:
                 push_if, byte_var = st, pushes[0].args[0].id
             elif push_if is not None and any(isinstance(s_, ast.Continue) for s_ in st.body) and skip_if is None:
                 skip_if = st
-            elif isinstance(st.test, ast.Compare) and isinstance(st.test.left, ast.Name) and isinstance(st.test.comparators[0], ast.Constant) \
-                    and isinstance(st.test.comparators[0].value, str) and st.test.comparators[0].value.startswith("OP_"):
-                chain, op_var = st, st.test.left.id
+            elif isinstance(st.test, ast.Compare) and len(st.test.ops) == 1:
+                a_, b_ = st.test.left, st.test.comparators[0]
+                if isinstance(a_, ast.Constant):
+                    a_, b_ = b_, a_  # `"OP_X" == op` is `op == "OP_X"`
+                if isinstance(a_, ast.Name) and isinstance(b_, ast.Constant) and isinstance(b_.value, str) and b_.value.startswith("OP_"):
+                    chain, op_var = st, a_.id
         if isinstance(st, ast.Expr) and isinstance(st.value, ast.Call) and call_name(st.value) == "assert_not_disabled":
             calls_disabled = True
     if push_if is None or skip_if is None or chain is None:
@@ -273,7 +276,9 @@ def rule_limits(ctx: Ctx, rep: Report) -> None:
     # initial stack element sizes
     for q, what in ((f"{ENG}._verify_witness_v0", "p2wsh initial stack"), (f"{TAP}.verify_script_path_vc0", "tapscript initial stack")):
         fi = ctx.func(q)
-        ok = any(c.op == "truthy" and "MAX_SCRIPT_ELEMENT_SIZE" in c.subject and "> MAX_SCRIPT_ELEMENT_SIZE" in c.subject for c in refusal_constraints(ctx, fi))
+        ok = any(c.op == "truthy" and c.node is not None and any(
+            PT.match(PT.compile_("any((len($v) > MAX_SCRIPT_ELEMENT_SIZE for $v in $$it))"), x, {}) or PT.match(PT.compile_("max((len($v) for $v in $$it)) > MAX_SCRIPT_ELEMENT_SIZE"), x, {})
+            for x in ast.walk(c.node)) for c in refusal_constraints(ctx, fi))
         rep.ob(rule, f"{fi.name}:initial_stack_520", ok, fi.where(), f"{what}: elements over 520 bytes refused")
 
 
